@@ -475,6 +475,7 @@ type podTemplate struct {
 	mig      v1.ResourceName
 	ext      int64
 	init     bool
+	overhead bool
 	sel      map[string]string
 	aff      *v1.Affinity
 	tol      []v1.Toleration
@@ -511,6 +512,7 @@ func (g *G) template() podTemplate {
 	}
 	if g.p(g.k.PInitContainers) {
 		t.init = true
+		t.overhead = g.p(0.3)
 	}
 	if g.p(g.k.PNodeSelector) {
 		switch g.r.IntN(3) {
@@ -612,7 +614,7 @@ func (g *G) mkPod(name, group, sub string, t podTemplate, created time.Time) *v1
 	if t.init {
 		ireq := v1.ResourceList{v1.ResourceCPU: mq(t.cpu * 2), v1.ResourceMemory: q(t.mem / 2)}
 		pod.Spec.InitContainers = []v1.Container{{Name: "init", Image: "img", Resources: v1.ResourceRequirements{Requests: ireq}}}
-		if g.p(0.3) {
+		if t.overhead {
 			pod.Spec.Overhead = v1.ResourceList{v1.ResourceCPU: mq(50)}
 		}
 	}
@@ -687,7 +689,7 @@ func (g *G) genWorkloads() {
 				w.pods = append(w.pods, g.mkPod(fmt.Sprintf("%s-%d", wl, i), pg.Name, "", t, created))
 			}
 		}
-		if g.topo && g.p(g.k.PTopology) {
+		if cloneClass == "" && g.topo && g.p(g.k.PTopology) {
 			tc := enginev2alpha2.TopologyConstraint{Topology: pick(g, []string{"topo", "topo", "topo", "topo-missing"})}
 			lvl := pick(g, []string{"zone", "rack", "kubernetes.io/hostname", "no-such-level"})
 			if g.p(0.75) {
